@@ -74,6 +74,8 @@ func (p *ProposerConfig) MarshalJSON() ([]byte, error) {
 	var minValue string
 	if p.MinValue != nil {
 		minValue = fmt.Sprintf("%v", p.MinValue.Div(weiPerETH))
+		// Div() rounds to 16 decimal places; shifting the decimal point keeps wei granularity.
+		minValue = p.MinValue.Shift(-18).String()
 	}
 
 	return json.Marshal(&proposerConfigJSON{
